@@ -66,6 +66,9 @@ fn read_programs(n: usize, tier: Tier) -> Vec<(String, ReadPlan)> {
         v.push(("read_exact".to_string(), ReadPlan::OtherMethod { method: 1 }));
         v.push(("bytes".to_string(), ReadPlan::OtherMethod { method: 2 }));
         v.push(("read_to_string".to_string(), ReadPlan::OtherMethod { method: 3 }));
+        // a read with an empty buffer returns 0 and means nothing (Read's contract): the body goes on
+        v.push(("r2-empty-then-r7".to_string(), ReadPlan::OtherMethod { method: 4 }));
+        v.push(("empty-then-read_to_end".to_string(), ReadPlan::OtherMethod { method: 5 }));
     }
     v
 }
